@@ -357,10 +357,9 @@ impl<W: Write> Ctx<W> {
                     (Some(x), Some(y)) => (x, y),
                     _ => return self.skip(c),
                 };
-                let r = self.call("allows_any", || {
-                    (ra.allows_any(&rb), rb.allows_any(&ra), ra.intersect(&rb).is_some())
-                });
-                if let Some((res, rev, isome)) = r {
+                let r = self.call("allows_any", || (ra.allows_any(&rb), rb.allows_any(&ra)));
+                let i = self.call("intersect", || ra.intersect(&rb).is_some());
+                if let (Some((res, rev)), Some(isome)) = (r, i) {
                     self.emit(json!({"ev":"any","a":a,"b":b,"res":res,"rev":rev,"isome":isome}));
                 }
             }
@@ -370,10 +369,10 @@ impl<W: Write> Ctx<W> {
                     (Some(x), Some(y)) => (x, y),
                     _ => return self.skip(c),
                 };
-                let r = self.call("allows_all", || {
-                    (ra.allows_all(&rb), ra.allows_any(&rb), rb.difference(&ra).is_none())
-                });
-                if let Some((res, any, dnone)) = r {
+                let r = self.call("allows_all", || ra.allows_all(&rb));
+                let y = self.call("allows_any", || ra.allows_any(&rb));
+                let d = self.call("difference", || rb.difference(&ra).is_none());
+                if let (Some(res), Some(any), Some(dnone)) = (r, y, d) {
                     self.emit(json!({"ev":"all","a":a,"b":b,"res":res,"any":any,"dnone":dnone}));
                 }
             }
@@ -561,12 +560,15 @@ impl<W: Write> Ctx<W> {
                 };
                 let (a2, b2) = (a.clone(), b.clone());
                 let r = self.call("cmp", move || {
+                    // explicit types: otherwise max/min are inferred on raw pointers and compare addresses
+                    let mx: &Version = std::cmp::max(&a2, &b2);
+                    let mn: &Version = std::cmp::min(&a2, &b2);
                     json!({
                         "cmp": ord_int(a2.cmp(&b2)), "pcmp": a2.partial_cmp(&b2).map(ord_int).unwrap_or(9),
                         "rcmp": ord_int(b2.cmp(&a2)),
                         "eq": a2 == b2, "ne": a2 != b2, "lt": a2 < b2, "le": a2 <= b2, "gt": a2 > b2, "ge": a2 >= b2,
                         "heq": hash_of(&a2) == hash_of(&b2),
-                        "maxa": std::ptr::eq(std::cmp::max(&a2, &b2), &a2), "mina": std::ptr::eq(std::cmp::min(&a2, &b2), &a2),
+                        "maxa": std::ptr::eq(mx, &a2), "mina": std::ptr::eq(mn, &a2),
                         "prea": a2.is_prerelease(),
                     })
                 });
@@ -836,7 +838,16 @@ impl<W: Write> Ctx<W> {
                     json!({"c":"print","dst":8,"a":6}),
                     json!({"c":"minv","a":6}),
                 ];
+                let only: Option<Vec<String>> = case.get("do").and_then(|x| x.as_array()).map(|l| {
+                    l.iter().filter_map(|x| x.as_str().map(|s| s.to_string())).collect()
+                });
                 for s in &steps {
+                    let c = s.get("c").and_then(|x| x.as_str()).unwrap_or("");
+                    if let Some(only) = &only {
+                        if c != "rload" && !only.iter().any(|o| o == c) {
+                            continue;
+                        }
+                    }
                     self.step(s);
                 }
             }
